@@ -270,11 +270,26 @@ func runDecisionTable(c *Ctx, rule string, report bool) (map[string]rotOutcome, 
 		mk, ok := evalKnownIds(run.Return.Results[0], run.Env)
 		cv := core.ResolveEnv(run.Return.Results[1], run.Env)
 		carry := "?"
-		if core.IsNilConst(cv) {
-			carry = ""
-		} else if cp := core.PathOf(cv); cp.Root == in && len(cp.Fields) == 1 {
-			carry = cp.Fields[0]
+		var evalCarry func(v ssa.Value, depth int)
+		evalCarry = func(v ssa.Value, depth int) {
+			if core.IsNilConst(v) {
+				carry = ""
+			} else if cp := core.PathOf(v); cp.Root == in && len(cp.Fields) == 1 {
+				carry = cp.Fields[0]
+			} else if depth < core.MaxSummaryDepth {
+				// "return makeNext(in.Next)": a single-return helper or local closure
+				if call, idx := core.CallResult(core.Strip(v)); call != nil && idx >= 0 {
+					if h := core.ModuleCallee(call.Common()); h != nil {
+						if rets := core.Returns(h); len(rets) == 1 && idx < len(rets[0].Results) {
+							core.WithSubst(core.FrameSubst(call.Common(), h), func() {
+								evalCarry(core.ReturnOperand(rets[0], idx), depth+1)
+							})
+						}
+					}
+				}
+			}
 		}
+		evalCarry(cv, 0)
 		if !ok || carry == "?" {
 			if report {
 				r.Unk(rule, name+" state "+s.String(), p.Pos(run.Return.Pos()), "cannot evaluate the returned list / carried root on this path")
@@ -794,16 +809,16 @@ func c09Filters(c *Ctx) {
 				r.CutOb(p, "R-C09.4", fmt.Sprintf("%s AddCert#%d filter=%s", name, i, g.Name), p.Pos(sk.Pos()), res, g)
 			}
 		}
-		nrel := 0
-		for _, b := range fn.Blocks {
-			for _, in := range b.Instrs {
-				if cc, ok := in.(*ssa.Call); ok {
-					if _, ok := core.TimeRelOf(cc); ok {
-						nrel++
-					}
-				}
+		// counted per call chain: a comparison inside a helper counts once for
+		// every call of the helper
+		nrel := len(core.DeepFind(fn, core.MaxSummaryDepth, func(in ssa.Instruction) bool {
+			cc, ok := in.(*ssa.Call)
+			if !ok {
+				return false
 			}
-		}
+			_, ok = core.TimeRelOf(cc)
+			return ok
+		}))
 		r.Check(nrel == 4, "R-C09.4", name+" number of time comparisons", p.Pos(fn.Pos()), "exactly the four validity filters", fmt.Sprintf("%d time comparisons, expected 4 (an extra, missing or duplicated filter)", nrel))
 	}
 }
